@@ -60,7 +60,7 @@ func funcHasProp(fc *FuncContract, p string) bool {
 	if fc == nil {
 		return false
 	}
-	for _, l := range [][]*Clause{fc.Requires, fc.Ensures, fc.Proves, fc.CallAsrt} {
+	for _, l := range [][]*Clause{fc.Requires, fc.Ensures, fc.Proves, fc.CallAsrt, fc.NeverCalls} {
 		for _, c := range l {
 			if hasProp(c.Props, p) {
 				return true
